@@ -22,6 +22,7 @@ type Plan struct {
 	Clock   []int64          `json:"clock,omitempty"`    // scenario "clock": clock readings, ns relative to the epoch
 	Steps   []Step           `json:"steps,omitempty"`    // component scenarios: scripted steps
 	Offset  int64            `json:"offset"`          // fake ns slept before anything starts (seeds the daemon's PRNGs)
+	Cancel  uint64           `json:"cancel,omitempty"` // order in which a cancelled context cancels its children (0 = insertion order)
 	Nodes   []NodeSpec       `json:"nodes"`
 	Loop    []RouteW         `json:"loop,omitempty"`   // loopback routes (world-global)
 	LoopIdx []int            `json:"loopidx,omitempty"` // indexes of loopback interfaces (default [1])
